@@ -9,3 +9,4 @@ import Rpki.Props.C14
 #print axioms Rpki.Props.C14.resolved_is_valid
 #print axioms Rpki.Props.C14.hashVerify_iff
 #print axioms Rpki.Props.C14.manifest_object_octets
+#print axioms Rpki.Props.C14.manifest_object_octets_either_mode
